@@ -64,7 +64,7 @@ fn check_vars_in_rewriter<'r, L: Language>(
   Ok(())
 }
 
-fn check_utils_defined<L: Language>(
+pub(crate) fn check_utils_defined<L: Language>(
   rule: &Rule<L>,
   utils: &RuleRegistration<L>,
   constraints: &HashMap<String, Rule<L>>,
